@@ -95,6 +95,16 @@ func c28WalletConfig(dir string) wallet.Config {
 	return wc
 }
 
+// detSignInputs signs like Transaction.SignInputs but with nonces derived from key and message, so that transaction
+// hashes - and with them output ids, their order and the whole node template - are the same in every process.
+func detSignInputs(txn *coin.Transaction, keys []cipher.SecKey) {
+	txn.InnerHash = txn.HashInner()
+	txn.Sigs = make([]cipher.Sig, len(txn.In))
+	for i := range txn.In {
+		txn.Sigs[i] = gen.DetSign(keys[i], cipher.AddSHA256(txn.InnerHash, txn.In[i]))
+	}
+}
+
 func mustNoErr(err error, what string) {
 	if err != nil {
 		panic(fmt.Sprintf("%s: %v", what, err))
@@ -210,9 +220,16 @@ func buildTemplate() (*nodeTemplate, error) {
 			sum += coins[i]
 		}
 		if u.ux.Body.Coins > sum {
-			mustNoErr(txn.PushOutput(u.ux.Body.Address, u.ux.Body.Coins-sum, keep/2), "PushOutput")
+			ch := keep / 2
+			for _, o := range txn.Out {
+				// a receiver that is the owner, with the same amount: the change must not repeat that output
+				if o.Address == u.ux.Body.Address && o.Coins == u.ux.Body.Coins-sum && o.Hours == ch {
+					ch--
+				}
+			}
+			mustNoErr(txn.PushOutput(u.ux.Body.Address, u.ux.Body.Coins-sum, ch), "PushOutput")
 		}
-		txn.SignInputs([]cipher.SecKey{u.owner})
+		detSignInputs(&txn, []cipher.SecKey{u.owner})
 		mustNoErr(txn.UpdateHeader(), "UpdateHeader")
 		return txn
 	}
@@ -226,7 +243,7 @@ func buildTemplate() (*nodeTemplate, error) {
 			}
 		}
 		mustNoErr(err, "CreateBlockFromTxns")
-		sb := coin.SignedBlock{Block: b, Sig: cipher.MustSignHash(b.HashHeader(), c28Publisher.Sec)}
+		sb := coin.SignedBlock{Block: b, Sig: gen.DetSign(c28Publisher.Sec, b.HashHeader())}
 		mustNoErr(v.ExecuteSignedBlock(sb), "ExecuteSignedBlock")
 	}
 	// block 1: genesis output -> wallets and users
@@ -284,8 +301,11 @@ func buildTemplate() (*nodeTemplate, error) {
 		mustNoErr(p3.PushInput(u.ux.Hash()), "PushInput")
 		h, _ := u.ux.CoinHours(now)
 		mustNoErr(p3.PushOutput(c28Users[1].Addr, u.ux.Body.Coins, h), "PushOutput") // fee 0
-		p3.SignInputs([]cipher.SecKey{u.owner})
+		detSignInputs(&p3, []cipher.SecKey{u.owner})
 		mustNoErr(p3.UpdateHeader(), "UpdateHeader")
+	}
+	if os.Getenv("VERIF_DEBUG_TEMPLATE") != "" {
+		fmt.Fprintf(os.Stderr, "TEMPLATE first=%s us0=%s us1=%s n=%d wallet0=%s\n", first.Hash().Hex()[:8], us[0].ux.Hash().Hex()[:8], us[1].ux.Hash().Hex()[:8], len(us), walletAddrs[0])
 	}
 	for i, p := range []coin.Transaction{p1, p2, p3} {
 		if _, _, err := v.InjectForeignTransaction(p); err != nil {
@@ -298,7 +318,7 @@ func buildTemplate() (*nodeTemplate, error) {
 		if err != nil {
 			return nil, fmt.Errorf("competitor block: %v", err)
 		}
-		t.nextBlock = coin.SignedBlock{Block: b, Sig: cipher.MustSignHash(b.HashHeader(), c28Publisher.Sec)}
+		t.nextBlock = coin.SignedBlock{Block: b, Sig: gen.DetSign(c28Publisher.Sec, b.HashHeader())}
 	}
 	sp := spend(us[3], now, []cipher.Address{c28Users[2].Addr}, []uint64{us[3].ux.Body.Coins / 2 / 1e6 * 1e6})
 	t.spendableHex = hex.EncodeToString(mustSerialize(sp))
